@@ -777,7 +777,8 @@ theorem pyInt_of_no_sign {cs : List Char} (h : ∀ c ∈ cs.head?, c ≠ '-' ∧
     · next h1 => simp at h1; exact absurd h1.1 hc.1
     · next h1 => simp at h1; exact absurd h1.1 hc.2
     · next h1 => simp at h1; subst h1; rfl
-    · next _ _ _ _ hne => exact (hne _ rfl).elim
+    · next h1 => simp at h1
+    · next _ _ _ _ hne _ => exact (hne _ rfl).elim
 
 theorem parseNat?_foldl (f : Option Nat → Char → Option Nat)
     (hf : ∀ a d, d < 10 → f (some a) (digitChar d) = some (a * 10 + d))
